@@ -34,14 +34,8 @@ package access
 // asked about the normalised (lower-case, no trailing dot) question name.
 //@ import urlfilter github.com/AdguardTeam/urlfilter
 //@ import sync sync
-//@ fun nameRuleBlocked(eng *urlfilter.DNSEngine, host string, qt int) bool
 //@ pred normQ(name string) = name == "." ? "." : lowerOf(trimSuffix(name, "."))
 //@ pred hostRuleBlocked(e *blockedHostEngine, req *dns.Msg) = nameRuleBlocked(e.lazyEngine, normQ(req.Question[0].Name), req.Question[0].Qtype)
-//@ func (*urlfilter.DNSEngine).MatchRequest
-//@   params d, r
-//@   modifies nothing
-//@   ensures r1 ==> r0 != nil
-//@   ensures (r1 && (r0.NetworkRule != nil ==> !r0.NetworkRule.Whitelist)) == nameRuleBlocked(d, r.Hostname, r.DNSType)
 // sync.Once runs the initialiser once; afterwards the engine is there.
 //@ func (*sync.Once).Do
 //@   modifies blockedHostEngine.lazyEngine
